@@ -597,7 +597,7 @@ Proof.
   pose proof (loop1_res pncp varid isr (kind_code kind) (s0 :: str) count stride NC_NOERR numrecs
                         (length shp - k) k fuel1 e1 (b2z isrec) ln1 0 shp Hlsp Hlcp Hkm Hfuel1 Hn) as HL1.
   cbv zeta in HL1. unfold mkst in HL1. rewrite <- Hkz in HL1. fold cn1 in HL1. fold strict in HL1.
-  match type of HL1 with loop_post ?R _ _ => destruct R as [s'| | |v| |] eqn:ER end;
+  match type of HL1 with loop_post ?R _ _ => destruct R as [s'| | |v| | |] eqn:ER end;
     cbn [loop_post] in HL1; try contradiction; clear ER Hfuel1; clear fuel1.
   2:{ destruct HL1 as [Hne Hv]. subst v. cbn [c_bind c_fun]. fold k.
       destruct (coords_err strict (skipn k (s0 :: str)) (skipn k cn1) (skipn k shp) =? NC_NOERR) eqn:E;
@@ -666,7 +666,7 @@ Proof.
   pose proof (loop2_res pncp varid isr (kind_code kind) (s0 :: str) (c0 :: cnr) stride NC_NOERR numrecs
                         (length shp - k) k fuel2 e3 (b2z isrec) ln1 l22 shp Hlsp Hlcp Hltp Har' Hkm Hfuel2 Hn) as HL2.
   cbv zeta in HL2. unfold mkst in HL2. rewrite <- Hkz in HL2. fold ts in HL2.
-  match type of HL2 with loop_post ?R _ _ => destruct R as [s'| | |v| |] eqn:ER2 end;
+  match type of HL2 with loop_post ?R _ _ => destruct R as [s'| | |v| | |] eqn:ER2 end;
     cbn [loop_post] in HL2; try contradiction; clear ER2 Hfuel2; clear fuel2.
   2:{ destruct HL2 as [Hne Hv]. subst v. cbn [c_bind c_fun]. fold k.
       destruct (edge_err (skipn k (s0 :: str)) (skipn k (c0 :: cnr)) (skipn k ts) (skipn k shp) =? NC_NOERR) eqn:E;
@@ -684,7 +684,7 @@ Proof.
   pose proof (loop3_res pncp varid isr (kind_code kind) (Some (s0 :: str, 0)) (Some (c0 :: cnr, 0)) t NC_NOERR numrecs
                         (length shp - 0) 0 fuel3 e4 (b2z isrec) ln1 l22 shp Hltp (Nat.sub_0_r _) Hfuel3 Hn) as HL3.
   cbv zeta in HL3. unfold mkst in HL3. cbn [Z.of_nat skipn] in HL3.
-  match type of HL3 with loop_post ?R _ _ => destruct R as [s'| | |v| |] eqn:ER3 end;
+  match type of HL3 with loop_post ?R _ _ => destruct R as [s'| | |v| | |] eqn:ER3 end;
     cbn [loop_post] in HL3; try contradiction; clear ER3 Hfuel3; clear fuel3.
   - destruct HL3 as [Hse Hs']. subst s'. cbn [c_bind c_fun]. rewrite Hse. reflexivity.
   - destruct HL3 as [Hne Hv]. subst v. reflexivity.
